@@ -235,11 +235,11 @@ def iterBody : List Expr :=
       (.block [.ret (some (.tuple [E_true, .at (.var "array") (.pre .deref (.var "i"))]))]) none,
     .ret (some (.tuple [E_false, .var "default"])) ]
 
-/-- body of the closure returned by MAP (bin_op/map.rs); captured: `func`, `mapper` -/
+/-- body of the closure returned by MAP (bin_op/map.rs); captured: `func`, `mapper`, `default` -/
 def mapBody : List Expr :=
   [ .set "res" (.call (.var "func") []),
     .destruct ["con", "value"] (.var "res"),
-    .ifElse (.pre .not (.var "con")) (.ret (some (.var "res"))) none,
+    .ifElse (.pre .not (.var "con")) (.ret (some (.tuple [E_false, .var "default"]))) none,
     .ret (some (.tuple [E_true, .call (.var "mapper") [.var "value"]])) ]
 
 /-- body of the closure returned by FILTER (bin_op/filter.rs); captured: `func`, `predicate` -/
@@ -343,8 +343,9 @@ def eval : Nat → Env → Expr → M Val
       let g ← eval f env b
       match g.asType.returnType with
       | some r => do
+        let d := (ofType r).getD .unit
         let id ← freshId
-        pure (.fn id [] (.tup [.bool, r]) mapBody [("func", it), ("mapper", g)] none)
+        pure (.fn id [] (.tup [.bool, r]) mapBody [("func", it), ("mapper", g), ("default", d)] none)
       | none => wrong "map with a non-function"
     | .bin .filter a b => do
       let it ← eval f env a
